@@ -50,6 +50,24 @@ func main() {
 		}
 		rc = rf.Case
 	}
+	// a single case handed to a process of its own (see runInPlainProcess)
+	if sc := os.Getenv("VMON_SUBCASE"); sc != "" && rc == nil {
+		b, err := os.ReadFile(sc)
+		if err != nil {
+			fmt.Println("SUBCASE-ERROR", err)
+			os.Exit(3)
+		}
+		m(c, json.RawMessage(b))
+		for _, v := range c.ViolationList() {
+			vb, _ := json.Marshal(v)
+			fmt.Printf("PRELUDE-VIOLATION %s\n", vb)
+		}
+		for k, v := range c.CounterList() {
+			fmt.Printf("SUB-COUNTER %s %d\n", k, v)
+		}
+		fmt.Println("PRELUDE-DONE")
+		os.Exit(0)
+	}
 	// in some processes the very first use of the code under test is made by several
 	// goroutines at once (anything initialised lazily meets its first callers together)
 	if p, ok := preludes[c.Prop]; ok && rc == nil {
@@ -72,6 +90,80 @@ func main() {
 	selfTest(c)
 	m(c, rc)
 	c.Finish()
+}
+
+// runInPlainProcess runs one case (as in replay mode) in a process of the same monitor
+// built WITHOUT the race detector (vmon.plain, built by the driver for properties
+// that ask for it) and takes over its violations and counters.  It is meant for
+// long single-goroutine workloads, where the detector has nothing to watch and costs
+// a factor of ten to forty.  It returns false if there is no such binary (the caller
+// then runs the case in this process).
+func runInPlainProcess(c *child.Ctx, caseJSON []byte, what string) bool {
+	bin := filepath.Join(c.BinDir, "vmon.plain")
+	if c.BinDir == "" {
+		return false
+	}
+	if _, err := os.Stat(bin); err != nil {
+		return false
+	}
+	f, err := os.CreateTemp(c.WorkDir, "subcase*.json")
+	if err != nil {
+		return false
+	}
+	f.Write(caseJSON)
+	f.Close()
+	defer os.Remove(f.Name())
+	var args []string
+	skip := false
+	for _, a := range os.Args[1:] {
+		if skip {
+			skip = false
+			continue
+		}
+		if a == "-out" || a == "-cur" || a == "--out" || a == "--cur" || a == "-replay" || a == "--replay" {
+			skip = true
+			continue
+		}
+		if strings.HasPrefix(a, "-out=") || strings.HasPrefix(a, "-cur=") || strings.HasPrefix(a, "--out=") || strings.HasPrefix(a, "--cur=") {
+			continue
+		}
+		args = append(args, a)
+	}
+	args = append(args, "-out", os.DevNull, "-cur", os.DevNull)
+	cmd := exec.Command(bin, args...)
+	cmd.Env = append(os.Environ(), "VMON_SUBCASE="+f.Name())
+	done := make(chan struct{})
+	var out []byte
+	go func() { out, err = cmd.CombinedOutput(); close(done) }()
+	for waiting := true; waiting; {
+		select {
+		case <-done:
+			waiting = false
+		case <-time.After(time.Second):
+			tick() // the work is going on in the other process
+		}
+	}
+	if !strings.Contains(string(out), "PRELUDE-DONE") {
+		c.Violate("crash", fmt.Sprintf("%s, run in a process of its own, ended abnormally (%v):\n%s", what, err, clipText(string(out))), caseJSON)
+		return true
+	}
+	for _, ln := range strings.Split(string(out), "\n") {
+		if strings.HasPrefix(ln, "PRELUDE-VIOLATION ") {
+			var v child.Violation
+			if json.Unmarshal([]byte(ln[len("PRELUDE-VIOLATION "):]), &v) == nil {
+				c.Violate(v.Signature, v.Detail, caseJSON)
+			}
+		}
+		if strings.HasPrefix(ln, "SUB-COUNTER ") {
+			var name string
+			var n int64
+			if _, e := fmt.Sscanf(ln, "SUB-COUNTER %s %d", &name, &n); e == nil && name != "violations_seen" {
+				c.Count(name, n)
+			}
+		}
+	}
+	c.Count("cases_run_in_a_process_without_the_race_detector", 1)
+	return true
 }
 
 // freshProcesses re-runs this program n times with VMON_PRELUDE_ONLY set (same
